@@ -44,6 +44,10 @@ def run(ctx):
         c13.check_updater(ctx, c_)
     ctx.rule('R7.2', 'listeners are kept in lists, appended once, and notified by iterating (a copy of) the list in order')
     c08.r81(ctx)
+    # the model's streams are objects of their own: a stream (or a copy of one) never draws from another stream's generator (shared with C12)
+    from . import c12
+    for sc_ in ctx.prog.subclasses('StreamInterface'):
+        c12.r121_private_generator(ctx, sc_)
     c08.r82(ctx)
     r73_ids_ordinal(ctx)
     # ids must also increase strictly in creation order for the whole process (shared rule with C01): a counter that can be
